@@ -21,7 +21,7 @@ theorem mem_subst1 (a b : Char) (s : List Char) (x : Char) (h : x ∈ Proofs.Flo
 /-- the text an admitted E-notation field writes, and what it parses to -/
 theorem fltE_written (f : Field) (dec : Nat) (fmt c : Char) (hk : f.kind = .flt dec fmt [c])
     (hfmt : fmt = 'E' ∨ fmt = 'e') (hdec : dec ≤ 12) (hsep : sepOk [c] = true)
-    (neg : Bool) (m : Nat) (e : Int) (hwf : wfE m e dec ∨ m = 0)
+    (neg : Bool) (m : Nat) (e : Int) (hwf : wfB m e dec ∨ m = 0 ∨ (e = -1074 ∧ wfFine m dec))
     (hfits : Spec.C02.fits f (.dbl (.fin neg m e)) = true) (t : List Char)
     (ht : renderText f (.dbl (.fin neg m e)) = .ok t) :
     (∃ r, parseText f.kind t = some (.dbl r)) ∧ ¬ '\n' ∈ t ∧
@@ -47,10 +47,30 @@ theorem fltE_written (f : Field) (dec : Nat) (fmt c : Char) (hk : f.kind = .flt 
         · rcases hfmt with rfl | rfl <;> exact absurd h (by decide)
         · exact absurd h (by decide)
         · exact absurd h (by decide)
-  rcases hwf with hwf | rfl
+  rcases hwf with hwf | rfl | ⟨rfl, hwf⟩
+  rotate_left 2
+  · have hm0 : m ≠ 0 := hwf.1
+    obtain ⟨hm, hfine⟩ := fine_facts m dec hwf hdec
+    obtain ⟨r, hr, hfit⟩ := round_of_fits_E f dec fmt c hk hfmt neg m (-1074) hm0 hfits
+    have hround : Dbl.pyRound (.fin neg m (-1074)) ((dec : Int) - Dbl.floorLog10 m (-1074)) = some (.fin neg m (-1074)) := by
+      unfold Dbl.pyRound
+      have : (dec : Int) - Dbl.floorLog10 m (-1074) > 323 := by omega
+      simp only [this, if_true]
+    have hrx : r = .fin neg m (-1074) := by
+      rw [hround] at hr; injection hr with hr; exact hr.symm
+    subst hrx
+    obtain ⟨_, t', h1, _, h3, hsci, k, hteq⟩ :=
+      fltE_core_fine f dec fmt c hk hfmt hc1 hc2 hc3 hc4 hc5 hc6 neg m hm0 hm hdec hfine hfit
+    have hdig := sciText_digits m (-1074) dec (by have := hsci.hK1; omega) (by have := hsci.hK2; omega)
+    have : t = t' := by rw [h1] at ht; injection ht with ht; exact ht.symm
+    subst this
+    refine ⟨⟨_, h3⟩, ?_, k, _, _, _, _, hdig, by rw [hteq]; rfl⟩
+    rw [hteq]
+    unfold sciText
+    exact hchars k _ _ _ _ hdig
   · have hm0 : m ≠ 0 := hwf.1
     obtain ⟨r, hr, hfit⟩ := round_of_fits_E f dec fmt c hk hfmt neg m e hm0 hfits
-    obtain ⟨t', h1, _, h3, _, m', e', k, _, hsci, hteq⟩ :=
+    obtain ⟨t', h1, _, h3, _, m', e', k, _, hsci, _, hteq⟩ :=
       fltE_core f dec fmt c hk hfmt hc1 hc2 hc3 hc4 hc5 hc6 neg m e hwf hdec r hr hfit
     have hdig := sciText_digits m' e' dec (by have := hsci.hK1; omega) (by have := hsci.hK2; omega)
     have : t = t' := by rw [h1] at ht; injection ht with ht; exact ht.symm
@@ -72,12 +92,11 @@ theorem fltE_written (f : Field) (dec : Nat) (fmt c : Char) (hk : f.kind = .flt 
 def FldFE (f : Field) : Prop := f.kind = .int ∨ f.kind = .lit ∨ FltF f ∨ FltE f
 
 /-- what the property's "parsed values are representable" means for floats: finite,
-fitting; in an E-notation field moreover zero or at least `10^(decimals-322)` in magnitude
-(`Proofs.FloatE.wfE`: every normal double, and the subnormal ones whose last emitted digit has
-place value `10^-322` or more) -/
+fitting; in an E-notation field one of the three ranges `wfB` / zero / `wfFine`, which together
+are EVERY finite double in normal form (`Props.C01.floatFB_all`) -/
 def FitFE (f : Field) (l : List Char) : Prop :=
   ∀ y, f.readText l = .dbl y →
-    ∃ neg m e, y = .fin neg m e ∧ Proofs.FloatLoop.wfs m e ∧ Spec.C02.fits f (.dbl y) = true ∧ (∀ dec fmt c, f.kind = .flt dec fmt [c] → (fmt = 'E' ∨ fmt = 'e') → wfE m e dec ∨ m = 0)
+    ∃ neg m e, y = .fin neg m e ∧ Proofs.FloatLoop.wfs m e ∧ Spec.C02.fits f (.dbl y) = true ∧ (∀ dec fmt c, f.kind = .flt dec fmt [c] → (fmt = 'E' ∨ fmt = 'e') → wfB m e dec ∨ m = 0 ∨ (e = -1074 ∧ wfFine m dec))
 
 theorem fitF_of_fitFE {f : Field} {l : List Char} (h : FitFE f l) :
     ∀ y, f.readText l = .dbl y →
@@ -104,9 +123,10 @@ theorem law_of_read_FE (f : Field) (l : List Char) (hk : FldFE f) (hgeo : f.stop
       have hv : f.readText l = .dbl y := by simp [Field.readText, parseText, hk, hp]
       obtain ⟨neg, m, e, rfl, _, hfits, hwfn⟩ := hfitF y hv
       rw [hv]
-      rcases hwfn dec fmt c hk hfmt with hw | rfl
+      rcases hwfn dec fmt c hk hfmt with hw | rfl | ⟨rfl, hw⟩
       · exact law_flt_E f dec fmt c hk hfmt hsep neg m e hw hdec hfits
       · exact law_flt_E_zero f dec fmt c hk hfmt hsep neg e hdec hfits
+      · exact law_flt_E_fine f dec fmt c hk hfmt hsep neg m hw hdec hfits
 
 theorem no_newline_FE (f : Field) (l : List Char) (hk : FldFE f) (hline : ¬ '\n' ∈ l.dropLast)
     (hfitF : FitFE f l) (t : List Char) (ht : renderText f (f.readText l) = .ok t) : ¬ '\n' ∈ t := by
@@ -158,8 +178,8 @@ theorem canon_some_FE (f : Field) (l : List Char) (v : Val) (hk : FldFE f)
 For every unambiguous list of positional register types whose fields are integers, literals,
 F-notation floats (up to 323 decimals) or E-notation floats (up to twelve decimals), and every
 text whose parsed numbers are representable in their fields (integers fit when printed;
-floats are finite and fit when printed; in E-notation fields zero or of magnitude
-`10^(decimals-322)` and more — every normal double, most subnormal ones): read-then-write is a projection and `Spec.C06.holds`. -/
+floats are finite and fit when printed — in E-notation fields too: every finite double in
+normal form, `Props.C01.floatFB_all`): read-then-write is a projection and `Spec.C06.holds`. -/
 theorem main_regs_FE (regs : List RegDef) (x : List Char) (hamb : unambiguous regs = true)
     (hdel : ∀ r ∈ regs, r.delimiter = .none)
     (hkinds : ∀ r ∈ regs, ∀ f ∈ r.fields, FldFE f ∧ f.stop = f.size + f.start)
@@ -225,7 +245,7 @@ example :
         fun dec fmt c hk _ => by
           simp only [Field.mk', Kind.flt.injEq] at hk
           obtain ⟨rfl, _, _⟩ := hk
-          exact Or.inl (wfE_of_wfn _ _ _ ⟨by decide, by decide, by decide, by decide⟩ (by decide))⟩
+          exact Or.inl (wfB_of_wfE _ _ _ (wfE_of_wfn _ _ _ ⟨by decide, by decide, by decide, by decide⟩ (by decide)))⟩
     · rw [hr2] at hy; exact absurd hy (by simp)
 
 end Props.C06
